@@ -3,9 +3,11 @@
    under every operation sequence; exact best-first lookups on every reachable table.
    TableBounds.v: at most three non-peer and one direct-peer route per destination in every
    reachable table, and direct-peer routes disappear only through a removal naming them.
-   Still only validated (evaluated on every step of every real operation sequence): the
-   per-routing-prefix bounds 3*(2*limit+1) and "within the limit after a cleanup". *)
-From Verif Require Import Prelude SwitchLabel Table TableProofs TableSorted TableBounds.
+   TablePrefix.v: gossip routes per routing prefix stay within 3*(2*limit+1) in every reachable
+   table (after fix D21; the function as it stood is refuted).
+   Still only validated (evaluated on every step of every real operation sequence): "within the
+   limit after a cleanup". *)
+From Verif Require Import Prelude SwitchLabel Table TableProofs TableSorted TableBounds TablePrefix.
 
 (* 'added' means the route is now present ... *)
 Theorem C11_added_present : forall cfg now t e0 t',
@@ -126,3 +128,24 @@ Theorem C11_peers_persist_disconnect : forall t router p,
             (p = router \/ e_nexthop x = router \/ In router (map h_router (e_path x))).
 Proof. exact peers_persist_disconnect. Qed.
 Print Assumptions C11_peers_persist_disconnect.
+
+(* ---------- the per-routing-prefix bound (TablePrefix.v) ----------
+   Configurations: every routable prefix has 0 < base bits <= routing bits <= 128 (cfg_ok; what
+   GetRoutablePrefixesFor and the default produce — evaluated on every configuration the harness
+   uses).  In every table reachable by system-producible operations, for every gossip route e the
+   gossip routes sharing e's routing prefix number at most 3*(2*L+1), L the limit configured for
+   e's destination (the same for every destination of that routing prefix: same_prefix_same_limit). *)
+Theorem C11_reachable_prefix_bound : forall cfg self ops, cfg_ok cfg = true -> Forall op_ok ops ->
+  let t := fold_left (tstep cfg self) ops [] in
+  forall e, In e t -> e_source e = src_gossip ->
+    (cnt (in_gp (e_paddr e) (e_pbits e)) t <= 3 * (2 * lim_of cfg (e_dst e) + 1))%nat.
+Proof. exact reachable_prefix_bound. Qed.
+Print Assumptions C11_reachable_prefix_bound.
+
+(* AddRoute as it stood before fix D21 violates the bound: five direct peers in one routing prefix
+   with limit 1 and two gossip routes to each give 10 > 9 (replayed on the real table: finding D21). *)
+Theorem C11_prefix_bound_pinned_refuted : exists cfg ops, cfg_ok cfg = true /\ Forall op_ok ops /\
+  exists e, In e (fold_left (tstep_pinned cfg 1) ops []) /\ e_source e = src_gossip /\
+    (3 * (2 * lim_of cfg (e_dst e) + 1) < cnt (in_gp (e_paddr e) (e_pbits e)) (fold_left (tstep_pinned cfg 1) ops []))%nat.
+Proof. exact prefix_bound_pinned_refuted. Qed.
+Print Assumptions C11_prefix_bound_pinned_refuted.
